@@ -189,7 +189,9 @@ def run(case):
                     assert [tb.us(s) for s in a.itersegments()] == sorted({tuple(x[0]) for x in tr}) or True
                     obs.append(tr)
                 elif kind == "labels":
-                    obs.append([nm(x) for x in a.labels()])
+                    got_ = a.labels()
+                    obs.append([nm(x) for x in got_])
+                    got_.reverse(); got_.append("zz_junk"); del got_[:1]        # the caller's list from now on
                 elif kind == "label_timeline":
                     t = a.label_timeline(o[3])
                     t2 = a.label_timeline(o[3], copy=False)
@@ -207,6 +209,7 @@ def run(case):
                 elif kind == "chart":
                     ch = a.chart()
                     obs.append([[nm(l), tb.u(d)] for l, d in ch])
+                    junk_ = a.chart(); junk_.reverse(); junk_.append(("zz_junk", 0.0))
                     # percent=True: the same labels in the same order, each share = duration / sum of the label
                     # durations (overlapping labels each count in full), shares summing to 1
                     tot = sum(d for _l, d in ch)
